@@ -401,6 +401,10 @@ class Types:
             if t in ('std::exception', 'std::system_error', 'std::runtime_error', 'std::invalid_argument',
                      'std::out_of_range', 'std::logic_error', 'std::error_code', 'std::bad_optional_access'):
                 return self.note('exc_t', 'handle')
+            if t in ('Json::Value',):
+                return self.note('json_t', 'handle')
+            if t in ('Json::ValueType',):
+                return self.note('int', 'scalar')
             if t in ('FILE', '_IO_FILE', 'struct _IO_FILE'):
                 return self.note('FILE_t', 'handle')
             if t in ('DIR', '__dirstream', 'struct __dirstream'):
@@ -496,11 +500,13 @@ class Types:
             return self.note('deqit_' + sanitize(e), 'value', e)
         if name == 'std::function':
             return self.note('function_t', 'handle')
+        if name == 'std::array' and args and strip_cvref(args[0]) == 'char':
+            return self.note('str_t', 'handle')      # char buffer (only ever handed to logging / libc text functions)
         if name in ('std::fpos',):
             return self.note('log_t', 'handle')
         if name in ('std::lock_guard', 'std::unique_lock'):
             return self.note('lock_t', 'handle')
-        if name == 'std::atomic':
+        if name in ('std::atomic', 'std::__atomic_base'):
             return self.ctype(args[0])
         if name == 'std::tuple':
             cs = [sanitize(self.ctype(a)) for a in args]
@@ -899,6 +905,9 @@ class FnEmitter:
         if self.ty.kind(ct) == 'scalar' and len(kids(n)) <= 1:
             ks = kids(n)
             return '((%s)(%s))' % (ct, self.expr(ks[0])) if ks else '((%s)0)' % ct
+        if self.ty.kind(ct) == 'handle' and all(c.get('kind') in ('ImplicitValueInitExpr', 'InitListExpr', 'ArrayInitLoopExpr') or
+                                                 c.get('array_filler') is not None for c in kids(n)):
+            return '%s__ctor0()' % sanitize(ct)
         if self.ty.kind(ct) != 'value':
             self.unsupported(n, 'init list of non-value type ' + ct)
         parts = []
@@ -1001,6 +1010,12 @@ class FnEmitter:
         mname = cal['name']
         if is_log_type(obj.get('type')):
             return self.log_expr(n)
+        so0 = self.strip(obj)
+        if so0.get('kind') == 'DeclRefExpr' and so0.get('referencedDecl', {}).get('id') in self.u.lock_of and mname in ('unlock', 'lock'):
+            m, nm = self.u.lock_of[so0['referencedDecl']['id']]
+            if mname == 'unlock':
+                return '(mutex_unlock(%s), %s__owns = 0)' % (m, nm)
+            return '(mutex_lock(%s), %s__owns = 1)' % (m, nm)
         ot = obj.get('type', {})
         if strip_cvref(ot.get('desugaredQualType') or ot.get('qualType') or '').startswith('std::reference_wrapper<') and (
                 mname == 'get' or mname.startswith('operator ')):
@@ -1132,8 +1147,10 @@ class FnEmitter:
         if op == '=' and len(args) == 2:
             ct1 = self.ct(args[1])
             s1 = self.strip(args[1])
-            if ct1 == ct0:
+            if ct1 == ct0 and not (k0 == 'handle' and self.strip(a0).get('valueCategory') != 'lvalue'):
                 return '(%s = %s)' % (self.expr(a0), self.expr(args[1]))
+            if k0 == 'handle' and ct0 in ('json_t',):
+                return '%s__op_assign__%s(%s, %s)' % (sanitize(ct0), sanitize(ct1), self.expr(a0), self.expr(args[1]))
             return '%s__op_assign__%s(&%s, %s)' % (
                 sanitize(ct0), sanitize(ct1), self.expr(a0), self.expr(args[1]))
         on = self.opname(name, len(args))
@@ -1145,7 +1162,10 @@ class FnEmitter:
             if op == '[]':
                 return '(*%s__ref_at(%s, %s))' % (sanitize(ct0), self.expr(a0), self.expr(args[1]))
             return '(*%s__ref(%s))' % (sanitize(ct0), self.expr(a0))
-        if op == '[]' and ct0.startswith('umap_') and len(args) == 2:
+        if k0 == 'scalar' and op in ('++', '--'):
+            e0 = self.expr(a0)      # std::atomic<T> modelled as T (sequential semantics within the critical section)
+            return '(%s%s)' % (e0, op) if len(args) == 2 else '(%s%s)' % (op, e0)
+        if op == '[]' and (ct0.startswith('umap_') or ct0 == 'json_t') and len(args) == 2:
             # map operator[]: inserts when absent and yields an lvalue
             return '(*%s__at_ref(%s, %s))' % (sanitize(ct0), self.expr(a0), self.expr(args[1]))
         if el and self.ty.is_oomd_struct(el) and ct0.startswith('opt_') and op in ('*', '->') and len(args) == 1 \
@@ -1471,11 +1491,12 @@ class FnEmitter:
         if len(args) < 1:
             self.unsupported(d, 'lock guard without mutex')
         m = self.expr(args[0])
+        nm = sanitize(d['name'])
         self.w('mutex_lock(%s);' % m)
-        self.guards.append((self.scope_depth, ['mutex_unlock(%s);' % m]))
-        self.renames[d['id']] = sanitize(d['name'])
-        self.lock_of = getattr(self, 'lock_of', {})
-        self.lock_of[d['id']] = m
+        self.w('_Bool %s__owns = 1;   /* unique_lock / lock_guard %s owns the mutex */' % (nm, nm))
+        self.guards.append((self.scope_depth, ['if (%s__owns) mutex_unlock(%s);' % (nm, m)]))
+        self.renames[d['id']] = nm
+        self.u.lock_of[d['id']] = (m, nm)
 
     def s_ReturnStmt(self, n):
         ks = kids(n)
@@ -1938,6 +1959,7 @@ class Unit:
         self.exc_kinds = set()
         self.exc = ExcModel(self)
         self.lambdas = []
+        self.lock_of = {}
         self.lifted = []     # (sig, lines, manifest)
         self.globals = {}
         os.makedirs(workdir, exist_ok=True)
